@@ -1,10 +1,13 @@
 -- GENERATED: axiom audit of the property theorems of C21
 import SquidModel.Properties.C21
+#print axioms SquidModel.C21.repairs_present
 #print axioms SquidModel.C21.parse_segments_eq_oneShot_partial
 #print axioms SquidModel.C21.parse_segments_eq_oneShot_strict_partial
 #print axioms SquidModel.C21.parse_segments_eq_oneShot_fixed
+#print axioms SquidModel.C21.parse_segments_eq_oneShot
+#print axioms SquidModel.C21.parse_split_eq_oneShot
 #print axioms SquidModel.C21.parse_split_eq_oneShot_partial
-#print axioms SquidModel.C21.cr_split_counterexample
-#print axioms SquidModel.C21.line_limit_counterexample
-#print axioms SquidModel.C21.line_limit_accept_counterexample
 #print axioms SquidModel.C21.tiny_limit_counterexample
+#print axioms SquidModel.C21.unrepaired_cr_split_counterexample
+#print axioms SquidModel.C21.unrepaired_line_limit_counterexample
+#print axioms SquidModel.C21.unrepaired_line_limit_accept_counterexample
